@@ -268,7 +268,6 @@ def ob_waiter_timeout(nw: int, b0: bool, b1: bool, b2: bool, q: int, wk: int, ot
     """
     pre: _valid_a(nw, b0, b1, b2, q) and q <= QMAX and nw <= NWMAX
     pre: 0 <= wk <= 3
-    pre: not (wk == 3 and not other_id and not bad_step)  # TEMP-EXCLUDE
     post: _
     """
     nw, q, wk = conc(nw, 1, 3), conc(q, 0, 2), conc(wk, 0, 3)
@@ -473,7 +472,6 @@ def ob_serialize_waiters(k1: int, k2: int, r1: bool, r2: bool, twice: bool) -> b
 def ob_resume_requirements(nw: int, kv: int, sub: bool, early: bool, second: bool) -> bool:
     """
     pre: 1 <= nw <= 2 and 1 <= kv <= 2
-    pre: not (nw == 2 and early and not sub and (kv == 2 or second))  # TEMP-EXCLUDE
     post: _
     """
     nw, kv, sub, early, second = conc(nw, 1, 2), conc(kv, 1, 2), concb(sub), concb(early), concb(second)
